@@ -79,7 +79,13 @@ def generate(rng, tier):
                                                       "item_boundary": boundary, "base": base, "var": var}))
                 n += 1
         # annotation cases
-        scal = [(p, o) for p, o in gen.all_opts(opts) if "|" not in p and o.ty in ("int", "float", "bool", "str") and not (o.flags & gen.DEPRECATED)]
+        # (options at any depth: the printed annotation of an option inside a section is indented, and must still read back)
+        decl = dict(gen.all_opts(opts))
+
+        def plain_path(p):
+            parts = p.split("|")
+            return all(not (decl["|".join(parts[:i + 1])].flags & (gen.KEYSTRVAL | gen.DEPRECATED)) for i in range(len(parts) - 1))
+        scal = [(p, o) for p, o in gen.all_opts(opts) if o.ty in ("int", "float", "bool", "str") and not (o.flags & gen.DEPRECATED) and plain_path(p)]
         for _ in range(per):
             if not scal:
                 break
@@ -89,7 +95,11 @@ def generate(rng, tier):
                 val = [b"{", gen.value_token(rng, o.ty), b",", gen.value_token(rng, o.ty), b"}"] if rng.random() < 0.7 else [gen.value_token(rng, o.ty)]
             else:
                 val = [gen.value_token(rng, o.ty)]
-            text = piece + (b"" if piece.endswith(b"\n") else b" ") + p.encode() + b" = " + b" ".join(val) + b"\n"
+            parts = p.split("|")
+            text = piece + (b"" if piece.endswith(b"\n") else b" ") + parts[-1].encode() + b" = " + b" ".join(val) + b"\n"
+            for i in range(len(parts) - 2, -1, -1):
+                so = decl["|".join(parts[:i + 1])]
+                text = parts[i].encode() + (b' "t 1"' if so.flags & gen.TITLE else b"") + b" {\n" + text + b"}\n"
             lines = sl + ["X 0 %d" % COMMENTS, "PB 0 " + hx(text), "D 0", "PR 0", "X 1 %d" % COMMENTS, "PP 0 1", "D 1"]
             cases.append(Case("a%d" % n, lines, {"kind": "annotation", "piece": piece, "opt": p, "expect": expected_annotation(piece), "text": text}))
             n += 1
@@ -147,9 +157,11 @@ def oracle(case, il, ctx):
     exp = hx(case.meta["expect"])
     name = hx(case.meta["opt"])
     got = None
+    depth = str(case.meta["opt"].count("|"))
+    name = hx(case.meta["opt"].split("|")[-1])
     for l in il:
         w = l.split()
-        if w[0] == "V" and w[1] == "0" and w[2] == name:
+        if w[0] == "V" and w[1] == depth and w[2] == name:
             got = w[6]
     if got != exp:
         return "comment before '%s = ...' did not become its trimmed annotation (got %s, want %s)" % (case.meta["opt"], got, exp)
@@ -168,7 +180,7 @@ def oracle(case, il, ctx):
     got2 = None
     for l in il[k:]:
         w = l.split()
-        if w[0] == "V" and w[1] == "0" and w[2] == name:
+        if w[0] == "V" and w[1] == depth and w[2] == name:
             got2 = w[6]
     if got2 != exp:
         return "annotation of '%s' was not read back from the printed text (got %s, want %s)" % (case.meta["opt"], got2, exp)
@@ -183,6 +195,9 @@ def nontrivial(case, model_lines):
 
 def stats(case, model_lines):
     s = {"kind_" + case.meta["kind"]: 1}
+    if case.meta["kind"] == "annotation":
+        s["annotation_at_depth_%d" % case.meta["opt"].count("|")] = 1
+        s["annotation_multi_line"] = 1 if b"\n" in case.meta["expect"] else 0
     if case.meta["kind"] == "transparent":
         s["inside_item" if not case.meta["item_boundary"] else "item_boundary"] = 1
         s["accepted" if model_lines[1:2] == ["R 0"] else "rejected"] = 1
